@@ -3,5 +3,38 @@ Import ListNotations.
 From Stam Require Import Base.Sx Model.Offset Model.Store Model.Loader Model.Csv Spec.CsvSpec Proofs.Loader Proofs.Csv Props.C15.
 Check (C15_split_join : forall l, (forall x, In x l -> has_semi x = false) -> l <> [] -> split (join_semi l) = l).
 Check (C15_column_shape : forall own l, own ++ push_all l = column_spec own l).
+Check (C15_kind_roundtrip : forall k, kind_of_str (kind_str k) = Ok k).
+Check (C15_row_roundtrip : forall idcol ds k bs r, pairs_wf ds -> target_wf k bs ->
+  assemble idcol (data_columns ds) k (map member_of bs) = Some r ->
+  csv_row_now r = Ok {| Loader.ab_id := opt idcol; Loader.ab_data := ds;
+                        Loader.ab_target := Some (target_of k bs) |}).
+Check (C15_unpack_pack : forall s h a r, store_ok s = true -> get_ann s h = Some a ->
+  (a_kind a <> 0 -> a_leaves a <> []) -> pack_row s h a = Some r ->
+  exists bs ds, map_opt (leaf_build s) (a_leaves a) = Some bs /\ data_names s a = Some ds /\
+    csv_row_now r = Ok {| Loader.ab_id := opt (id_column h a); Loader.ab_data := ds;
+                          Loader.ab_target := Some (target_of (a_kind a) bs) |}).
+Check (C15_offset_text : forall len b e m, b <= e -> e <= len -> fits len = true ->
+  exists cb ce,
+    cursor_pair (fst (off_strs (Some (report_resource len (b, e) m))))
+                (snd (off_strs (Some (report_resource len (b, e) m)))) = Ok (cb, ce)
+    /\ resource_ts len (mkoff (ocur cb) (ocur ce)) = Offset.Ok (b, e)).
+Check (C15_offset_relative : forall pb pe b e m len, pb <= b -> b <= e -> e <= pe -> pe <= len -> fits len = true ->
+  exists off cb ce,
+    relative_offset (b, e) (pb, pe) m = Some off
+    /\ cursor_pair (fst (off_strs (Some off))) (snd (off_strs (Some off))) = Ok (cb, ce)
+    /\ selection_ts (pb, pe) (mkoff (ocur cb) (ocur ce)) = Offset.Ok (b, e)).
 Print Assumptions C15_split_join.
 Print Assumptions C15_column_shape.
+Print Assumptions C15_kind_roundtrip.
+Print Assumptions C15_cursor_codec.
+Print Assumptions C15_data_columns.
+Print Assumptions C15_row_roundtrip.
+Print Assumptions C15_unpack_pack.
+Print Assumptions C15_offset_text.
+Print Assumptions C15_offset_relative.
+Print Assumptions C15_name_plain.
+Print Assumptions C15_name_temp.
+Print Assumptions C15_name_set.
+Print Assumptions C15_tempid_refuted.
+Print Assumptions C15_empty_complex_refuted.
+Print Assumptions C15_nonvacuous.
